@@ -394,10 +394,13 @@ func c04Scenario(c *Ctx, idx int, r *Rng) (mlines, mimpl, mcase []string) {
 	log("include via %s, exclude via %s", map[bool]string{true: "config", false: "flag"}[incViaConfig], map[bool]string{true: "config", false: "flag"}[excViaConfig])
 	// ---- local working-tree states
 	mutates := cmdKind == "pull" || cmdKind == "checkout"
-	for _, f := range files {
+	fromSub := mutates && r.Chance(35) // the command will be run from a sub-directory of the work tree
+	for fi, f := range files {
 		wp := filepath.Join(cl.dir, f.path)
 		f.mutation = "none"
-		if mutates && r.Chance(55) {
+		if fromSub && fi == 0 && len(f.content) > 0 {
+			f.mutation = "git-rm" // directed: a staged deletion and a command run from below the top (D82)
+		} else if mutates && r.Chance(55) {
 			f.mutation = Pick(r, []string{"edited", "edited-short", "emptied", "deleted", "git-rm", "other-pointer", "other-pointer-unknown", "same-oid-crlf", "same-oid-legacy", "same-oid-extra-line", "long-lookalike", "read-only", "truncated-pointer", "pointer-plus-space"})
 		}
 		switch f.mutation {
@@ -530,8 +533,18 @@ func c04Scenario(c *Ctx, idx int, r *Rng) (mlines, mimpl, mcase []string) {
 			log("git checkout v0 (skip) ; git checkout -f %s -> %d", ref, ccode)
 		}
 	} else {
-		cout, ccode = cl.runLfs(args...)
-		log("git lfs %s -> %d", strings.Join(args, " "), ccode)
+		if fromSub && len(coArgs) == 0 {
+			// the same command from a sub-directory of the work tree: what it does to the files must not
+			// depend on where it is run (D82: staged deletions were only honoured from the top)
+			sd := filepath.Join(cl.dir, "somewhere", "below")
+			os.MkdirAll(sd, 0o755)
+			cout, ccode = runIn(sd, cl.env, cl.lfs, args...)
+			log("(in somewhere/below) git lfs %s -> %d", strings.Join(args, " "), ccode)
+			c.R.Count("cmd.from-subdirectory")
+		} else {
+			cout, ccode = cl.runLfs(args...)
+			log("git lfs %s -> %d", strings.Join(args, " "), ccode)
+		}
 	}
 	c.R.Count("cmd." + cmdKind)
 	c.R.Eval(cas(), true)
